@@ -316,6 +316,9 @@ func genHistory(t *rapid.T) history {
 	for s := 0; s < steps; s++ {
 		i := rapid.IntRange(0, len(st)-1).Draw(t, "inst")
 		kind := h.Pick(t, "op", 8, 8, 2, 2, 1, 1, 1)
+		if s == 0 && h.Pick(t, "absorbfirst", 1, 4) == 1 {
+			kind = 0 // most histories start by absorbing something
+		}
 		if kind == 0 && st[i].squeezing {
 			kind = 1
 		}
